@@ -191,6 +191,8 @@ func (r *runner) run(ctx context.Context, isStream bool, input any, opts ...Opti
 			if err != nil {
 				return nil, newGraphRunError(fmt.Errorf("restore tasks fail: %w", err))
 			}
+			// the restored tasks have been handed their nested checkpoints; tasks created later must start fresh
+			ctx = setCheckPointToCtx(ctx, nil)
 		}
 	} else if checkPointID != nil {
 		cp, err := getCheckPointFromStore(ctx, *checkPointID, r.checkPointer)
@@ -227,6 +229,8 @@ func (r *runner) run(ctx context.Context, isStream bool, input any, opts ...Opti
 			if err != nil {
 				return nil, newGraphRunError(fmt.Errorf("restore tasks fail: %w", err))
 			}
+			// the restored tasks have been handed their nested checkpoints; tasks created later must start fresh
+			ctx = setCheckPointToCtx(ctx, nil)
 		}
 	}
 	if !initialized {
